@@ -271,6 +271,9 @@ _POW2 = z3.Function('pow2', z3.IntSort(), z3.IntSort())
 
 def pow2_sym(ctx, k):
     """2**k for symbolic k >= 0 as an uninterpreted function with ground unfoldings."""
+    c = sym.concrete_int(k)
+    if c is not None and 0 <= c <= 100000:
+        return SInt(z3.IntVal(1 << c))
     kt = as_int_term(k)
     if ctx.branch(kt < 0):
         from .interp import py_raise
@@ -1087,7 +1090,9 @@ def _m_len(ctx, x):
     if isinstance(x, MBytes):
         x = x.get()
     if isinstance(x, (SBytes, SStr, SSeq)):
-        return x.length()
+        n = x.length()
+        c = sym.concrete_int(n)
+        return n if c is None else c
     if isinstance(x, SObj):
         m = static_lookup(x.cls, '__len__')
         if m is None:
@@ -1109,7 +1114,7 @@ def _type_of(x):
         return x.cls
     if isinstance(x, SBool):
         return bool
-    if isinstance(x, SInt):
+    if isinstance(x, (SInt, sym.SLow)):
         return int
     if isinstance(x, SReal):
         return float
@@ -1509,7 +1514,10 @@ def _m_range(ctx, *a):
         return SymRange(0, a[0])
     if len(a) == 2:
         return SymRange(a[0], a[1])
-    raise Unsupported('range with symbolic step')
+    st = sym.concrete_int(a[2])
+    if st is not None and st > 0:
+        return SymRange(a[0], a[1], st)
+    raise Unsupported('range with symbolic or non-positive step')
 
 
 @register(builtins.iter)
